@@ -442,7 +442,7 @@ def _enum_next(m, st, callee, args, t):
     return m.world.enumerate_next(m, st, args[0])
 
 
-@model("core::iter::traits::iterator::Iterator::nth", "<core::iter::adapters::skip::Skip<I> as core::iter::traits::iterator::Iterator>::nth", "<core::str::iter::Chars<'a> as core::iter::traits::iterator::Iterator>::nth")
+@model("core::iter::traits::iterator::Iterator::nth", "<core::iter::adapters::skip::Skip<I> as core::iter::traits::iterator::Iterator>::nth", "<core::str::iter::Chars<'a> as core::iter::traits::iterator::Iterator>::nth", "<core::str::iter::CharIndices<'a> as core::iter::traits::iterator::Iterator>::nth", "<core::iter::adapters::rev::Rev<I> as core::iter::traits::iterator::Iterator>::nth")
 def _nth(m, st, callee, args, t):
     return m.world.iter_nth(m, st, args[0], args[1])
 
